@@ -230,7 +230,12 @@ fn scenario(scn: &Scn, seen: &mut Seen) -> Outcome {
                     // bounded, so that a scenario that ends early cannot leave a spinning thread behind
                     let t0 = std::time::Instant::now();
                     while !r2.load(Ordering::SeqCst) && t0.elapsed() < Duration::from_secs(10) {
-                        thread::yield_now();
+                        // (the thread is held either way; sleeping keeps a loaded machine from being flooded with spinners)
+                        if cfg!(miri) {
+                            thread::yield_now();
+                        } else {
+                            thread::sleep(Duration::from_micros(100));
+                        }
                     }
                 });
                 match wait_until(|| entered.load(Ordering::SeqCst)) {
